@@ -33,7 +33,7 @@ ASSUMPTIONS = [
 ]
 REQUIRED = ["acl_converted_ok", "multi_eq_split", "group_members_kept", "name_fallback_to_number",
             "single_ace_ok", "single_multiport_refused", "addrgroup_ok", "nc_member_to_ios_refused",
-            "roundtrip_stable"]
+            "roundtrip_stable", "siblings_untouched"]
 OTHER = dict(ios="nxos", nxos="ios")
 
 
@@ -83,6 +83,7 @@ def units(tier, seed):
         out += [dict(kind="single_ace", src=src), dict(kind="single_addr", src=src),
                 dict(kind="single_ag", src=src), dict(kind="addrgroup", src=src)]
     out.append(dict(kind="standard"))
+    out += [dict(kind="siblings", src=src) for src in G.PLATFORMS]
     return out
 
 
@@ -102,6 +103,56 @@ def run_unit(unit, ctx):
         _addrgroup(unit["src"], ctx)
     elif k == "standard":
         _standard(ctx)
+    elif k == "siblings":
+        _siblings(unit["src"], ctx)
+
+
+def _siblings(src, ctx):
+    """Several ACLs extracted from one configuration that reference the same address group:
+    converting ONE of them leaves the others (text, members, member platform) exactly as they were."""
+    import cisco_acl
+
+    dst = "nxos" if src == "ios" else "ios"
+    if src == "ios":
+        cfg = ("object-group network G\n host 10.1.1.1\n 10.2.0.0 255.255.0.0\n"
+               "ip access-list extended A\n permit tcp object-group G any eq 80 443\n deny ip any object-group G\n"
+               "ip access-list extended B\n permit udp any object-group G eq 53\n remark x\n"
+               "ip access-list extended C\n permit ip object-group G object-group G\n")
+    else:
+        cfg = ("object-group ip address G\n 10 host 10.1.1.1\n 20 10.2.0.0/16\n"
+               "ip access-list A\n 10 permit tcp addrgroup G any eq 80\n 20 deny ip any addrgroup G\n"
+               "ip access-list B\n 10 permit udp any addrgroup G eq 53\n 20 remark x\n"
+               "ip access-list C\n 10 permit ip addrgroup G addrgroup G\n")
+
+    def snap(acl):
+        out = [acl.line, acl.platform]
+        for o in acl.items:
+            if hasattr(o, "srcaddr"):
+                for side in ("srcaddr", "dstaddr"):
+                    out.append([(m.line, m.platform) for m in getattr(o, side).items])
+        return out
+
+    for which in range(3):
+        for steps in ((dst,), (dst, src), (dst, src, dst)):
+            ctx.ev()
+            case = dict(kind="siblings", src=src, converted=which, steps=list(steps))
+            try:
+                acls = cisco_acl.acls(cfg, platform=src)
+                before = [snap(a) for a in acls]
+                for p in steps:
+                    acls[which].platform = p
+                after = [snap(a) for a in acls]
+            except Exception as ex:  # noqa
+                ctx.viol("Acl.platform:siblings:exception", case, repr(ex), "conversion")
+                continue
+            bad = [acls[i].name for i in range(3) if i != which and after[i] != before[i]]
+            if bad:
+                i = [a.name for a in acls].index(bad[0])
+                ctx.viol("Acl.platform:converting_one_acl_changes_another", dict(case, other=bad),
+                         after[i], before[i])
+            else:
+                ctx.out("siblings_untouched")
+    ctx.sample("siblings", dict(src=src))
 
 
 def replay(case, ctx):
